@@ -144,6 +144,11 @@ def check_chunk(chunk):
     return out
 
 
+def unit(rng):
+    v = np.array([rng.gauss(0, 1) for _ in range(3)])
+    return v / np.linalg.norm(v)
+
+
 def float_part(L, rng, n):
     from basic_robotics.general import Screw, Wrench, tm, fsr
 
@@ -153,9 +158,16 @@ def float_part(L, rng, n):
         th = rng.uniform(0, PI - 1e-3)
         p = [rng.uniform(-10, 10) / math.sqrt(3) for _ in range(3)]
         return rf.taa_to_tm(p + list(ax * th))
-    reg = "float"
-    for _ in range(n):
+    for it in range(n):
         A, B, C = frame(), frame(), frame()
+        reg = "float"
+        if it % 5 == 4:
+            # frames that are distinct but close (an origin 1e-7..1e-3 away, optionally turned by 1e-5..1e-3 rad - above the
+            # library's 1e-6 cut-off): "the same frame" must not be decided by a loose comparison
+            dp = unit(rng) * 10 ** rng.uniform(-7, -3)
+            dr = unit(rng) * (10 ** rng.uniform(-5, -3) if rng.random() < 0.5 else 0.0)
+            B = A @ rf.taa_to_tm(list(dp) + list(dr))
+            reg = "float|close-frames"
         v = np.array([rng.uniform(-5, 5) for _ in range(6)])
         u = np.array([rng.uniform(-5, 5) for _ in range(6)])
         case = {"A": A.tolist(), "B": B.tolist(), "C": C.tolist(), "v": v.tolist(), "u": u.tolist()}
@@ -214,7 +226,9 @@ def float_part(L, rng, n):
         L.log("force unchanged at application point", reg, float(np.abs(mw.getForce().reshape(3) - f).max()) / sc(f), 1e-8, case, kn)
     for law in ("screw:A->B=Ad", "wrench:A->B=Ad", "screw:A->B->C=A->C", "wrench:A->B->C=A->C", "power invariant",
                 "zero moment at application point", "wrench:sum across frames", "screw:s-a=-(a-s)", "wrench:a-s=a+(-s)"):
-        L.require(law, reg, n)
+        L.require(law, "float", n // 2)
+    for law in ("screw:difference across frames", "wrench:difference across frames", "wrench:sum across frames", "screw:(a+b)-b=a"):
+        L.require(law, "float|close-frames", max(3, n // 10))
 
 
 def known_probe(L):
